@@ -211,8 +211,11 @@ abbrev Res := Outcome (Store × VCell)
 /-! ## typed argument poppers (`builtin/mod.rs`) -/
 
 /-- `pop_index` / `Number::to_usize` on an exact integer (usize is 64 bit) -/
-def toUsize (n : Int) : Option Nat :=
-  if 0 ≤ n ∧ n < 18446744073709551616 then some n.toNat else none
+def usizeLimit : Nat := 18446744073709551616
+
+def toUsize : Int → Option Nat
+  | .ofNat k => if k < usizeLimit then some k else none
+  | .negSucc _ => none
 
 def popIndex (s : Store) (v : VCell) : Outcome Nat := do
   match (← s.get v) with
